@@ -233,6 +233,15 @@ def gen_string(rng, maxlen=12, allow_nul=True):
 def gen_number(rng):
     """returns (expected, spelling): expected = ('U',n) / ('I',n) for integer literals in range, else ('Q', Fraction, sigdigits)"""
     r = rng.random()
+    if r < 0.06:
+        # integer literal beyond the 64-bit range (no fraction, no exponent): stored as a floating-point number, judged within the C12 accuracy
+        mag = rng.choice([2 ** 64, 2 ** 64 + 1, 2 ** 64 + rng.randrange(0, 10 ** 6), rng.randrange(2 ** 64, 10 ** 20), rng.randrange(10 ** 19, 10 ** rng.randrange(20, 40)),
+                          int(str(rng.randrange(1, 10)) + "".join(rng.choice("0123456789") for _ in range(rng.randrange(19, 45))))])
+        neg = rng.random() < 0.4
+        if neg and rng.random() < 0.3:
+            mag = 2 ** 63 + rng.choice([1, 2, 1000, 2 ** 62])
+        txt = ("-" if neg else "") + str(mag)
+        return ("Q", Fraction(-mag if neg else mag), sig_digits(txt)), txt.encode()
     if r < 0.35:
         # integer literal
         mag = rng.choice([0, 1, 9, 10, 127, 128, 255, 256, 32767, 65535, 2 ** 31 - 1, 2 ** 31, 2 ** 32 - 1, 2 ** 32, 2 ** 53, 2 ** 63 - 1, 2 ** 63,
